@@ -350,4 +350,158 @@ Section Inv.
     - inv H. left. eexists _, _. split; [apply adv_collect|reflexivity].
     - discriminate.
   Qed.
+
+  Ltac split_eb Eb :=
+    apply andb_true_iff in Eb; let E1 := fresh in let E2 := fresh in destruct Eb as [E1 E2];
+    apply Nat.eqb_eq in E1; apply N.eqb_eq in E2; subst.
+
+  Lemma cs_of_resume : forall c o o' i n,
+    cs_of (mkCfg (map (fun J => match i_obj J with
+                                | Some o1 => if Nat.eqb o1 o then set_iobj S X J (Some o') else J
+                                | None => J end) (c_insts c))
+                 (c_objs c ++ [mkObj (gen 0) None (gen 0) 0]) (c_trace c) (c_gens c)) i n
+    = match cs_of c i n with
+      | Some o1 => if Nat.eqb o1 o then Some o' else Some o1
+      | None => None
+      end.
+  Proof.
+    intros. unfold cs_of; simpl. rewrite nth_error_map.
+    destruct (nth_error (c_insts c) i) as [J|]; simpl; auto.
+    destruct (i_obj J) as [o1|] eqn:Eo.
+    - destruct (Nat.eqb o1 o) eqn:E1.
+      + unfold get_ns, set_iobj; simpl. destruct (nlist_get n (i_ns J)); auto.
+        destruct (ns_cs n0); auto; try rewrite Eo; try rewrite E1; auto.
+      + destruct (get_ns S X J n); auto. destruct (ns_cs n0); auto; try rewrite Eo; try rewrite E1; auto.
+    - destruct (get_ns S X J n); auto. destruct (ns_cs n0); auto; try rewrite Eo; auto.
+  Qed.
+
+  Lemma inv_lock_step : forall c ch c', inv_lock c -> pstep c ch = Some c' -> inv_lock c'.
+  Proof.
+    intros c ch c' IH H. destruct ch as [r|i n|i n|i n|i n|i n|o m].
+    - apply pstep_start_inv in H. destruct H as (G & _ & ->). intros i n o.
+      rewrite cs_of_new_inst, holder_new_inst. apply IH.
+    - (* acquire *)
+      apply pstep_acq_inv in H.
+      destruct H as (J & a & p & k & x & o & v & v0 & oi & El & Ek & Ex & Eo & Er & ->).
+      apply lookup_inv in El. destruct El as (Ei & Eg & _).
+      assert (Hlt : (o < List.length (c_objs c))%nat) by (eapply nth_some_lt; eauto).
+      assert (Hnone : holder c o = None) by (unfold holder; rewrite Er; auto).
+      assert (Hme : cs_of c i n = None) by (unfold cs_of; rewrite Ei, Eg; auto).
+      intros i' n' o'.
+      rewrite (cs_of_upd_node c); [|reflexivity|exact Ei].
+      rewrite holder_set_inst.
+      rewrite (holder_objs_eq _ (set_obj S X c o (mkObj v (Some (i, n)) v0 oi))) by reflexivity.
+      rewrite holder_set_obj by auto. simpl.
+      destruct (Nat.eqb_spec o o').
+      + subst o'. destruct (Nat.eqb i i' && N.eqb n' n) eqn:Eb.
+        * split_eb Eb. rewrite Eo. split; auto.
+        * split; intro Hc.
+          -- apply IH in Hc. congruence.
+          -- inv Hc. rewrite Nat.eqb_refl, N.eqb_refl in Eb. discriminate.
+      + destruct (Nat.eqb i i' && N.eqb n' n) eqn:Eb.
+        * split_eb Eb. rewrite Eo. split; intro Hc.
+          -- inv Hc. congruence.
+          -- apply IH in Hc. congruence.
+        * apply IH.
+    - (* load *)
+      apply pstep_load_inv in H. destruct H as (J & a & p & o & r & El & Eo & Er & ->).
+      apply lookup_inv in El. destruct El as (Ei & Eg & _).
+      intros i' n' o'. rewrite (cs_of_upd_node c); [|reflexivity|exact Ei].
+      rewrite holder_set_inst. simpl.
+      destruct (Nat.eqb i i' && N.eqb n' n) eqn:Eb; [|apply IH].
+      split_eb Eb. rewrite <- (IH _ _ _). unfold cs_of. rewrite Ei, Eg. simpl. reflexivity.
+    - (* store *)
+      apply pstep_store_inv in H.
+      destruct H as (J & a & p & l & k & x & o & r & x' & s' & El & Ek & Ex & Eo & Er & Eh & ->).
+      apply lookup_inv in El. destruct El as (Ei & Eg & _).
+      assert (Hlt : (o < List.length (c_objs c))%nat) by (eapply nth_some_lt; eauto).
+      intros i' n' o'. rewrite (cs_of_upd_node c); [|reflexivity|exact Ei].
+      rewrite holder_set_inst, holder_set_obj by auto. simpl.
+      assert (Hh : (if Nat.eqb o o' then o_holder r else holder c o') = holder c o').
+      { destruct (Nat.eqb_spec o o'); auto. subst. unfold holder. rewrite Er. auto. }
+      rewrite Hh.
+      destruct (Nat.eqb i i' && N.eqb n' n) eqn:Eb; [|apply IH].
+      split_eb Eb. rewrite <- (IH _ _ _). unfold cs_of. rewrite Ei, Eg. simpl. reflexivity.
+    - (* release *)
+      apply pstep_rel_inv in H. destruct H as (J & a & p & o & r & q & El & Eo & Er & ->).
+      apply lookup_inv in El. destruct El as (Ei & Eg & _).
+      assert (Hlt : (o < List.length (c_objs c))%nat) by (eapply nth_some_lt; eauto).
+      assert (Hme : cs_of c i n = Some o) by (unfold cs_of; rewrite Ei, Eg; auto).
+      assert (Hho : holder c o = Some (i, n)) by (apply IH; auto).
+      intros i' n' o'. rewrite (cs_of_doneq c); [|reflexivity|exact Ei].
+      rewrite (cs_of_upd_node c); [|reflexivity|exact Ei].
+      rewrite holder_set_inst, holder_set_obj by auto. simpl.
+      destruct (Nat.eqb i i' && N.eqb n' n) eqn:Eb.
+      + split_eb Eb. split; [discriminate|]. destruct (Nat.eqb_spec o o'); [discriminate|].
+        intro Hc. apply IH in Hc. congruence.
+      + destruct (Nat.eqb_spec o o').
+        * subst o'. split; [|discriminate]. intro Hc. apply IH in Hc. rewrite Hho in Hc. inv Hc.
+          rewrite Nat.eqb_refl, N.eqb_refl in Eb. discriminate.
+        * apply IH.
+    - (* other moves *)
+      apply pstep_adv_inv in H. destruct H as (J & a & p & El & En & [(p' & q & _ & ->)|(x & g & G & -> & Es & EG & ->)]).
+      + apply lookup_inv in El. destruct El as (Ei & Eg & _).
+        assert (Hme : cs_of c i n = None) by (unfold cs_of; rewrite Ei, Eg; auto).
+        intros i' n' o'. rewrite (cs_of_doneq c); [|reflexivity|exact Ei].
+        rewrite (cs_of_upd_node c); [|reflexivity|exact Ei]. rewrite holder_set_inst. simpl.
+        destruct (Nat.eqb i i' && N.eqb n' n) eqn:Eb; [|apply IH].
+        split_eb Eb. rewrite <- (IH _ _ _). rewrite Hme. reflexivity.
+      + apply lookup_inv in El. destruct El as (Ei & Eg & _).
+        assert (Hme : cs_of c i n = None) by (unfold cs_of; rewrite Ei, Eg; auto).
+        intros i' n' o'.
+        rewrite cs_of_set_inst by (rewrite new_inst_insts_len; apply nth_some_lt in Ei; lia).
+        rewrite holder_set_inst, holder_new_inst.
+        destruct (Nat.eqb_spec i i').
+        * subst i'. rewrite get_set_ns. destruct (N.eqb_spec n' n).
+          -- subst. simpl. rewrite <- (IH _ _ _), Hme. reflexivity.
+          -- rewrite <- (IH _ _ _). unfold cs_of. rewrite Ei. reflexivity.
+        * rewrite cs_of_new_inst. apply IH.
+    - (* resume *)
+      apply pstep_resume_inv in H. destruct H as (v & v0 & oi & Er & ->).
+      assert (Hlt : (o < List.length (c_objs c))%nat) by (eapply nth_some_lt; eauto).
+      assert (Hnone : holder c o = None) by (unfold holder; rewrite Er; auto).
+      intros i n o'.
+      assert (Hcs : cs_of (mkCfg (map (fun J => match i_obj J with
+                                | Some o1 => if Nat.eqb o1 o then set_iobj S X J (Some (List.length (c_objs c))) else J
+                                | None => J end) (c_insts c))
+                 (c_objs c ++ [mkObj (m v) None (m v) oi]) (c_trace c) (c_gens c)) i n
+              = match cs_of c i n with
+                | Some o1 => if Nat.eqb o1 o then Some (List.length (c_objs c)) else Some o1
+                | None => None end).
+      { rewrite <- (cs_of_resume c o (List.length (c_objs c)) i n). apply cs_of_insts_eq. reflexivity. }
+      rewrite Hcs. clear Hcs.
+      unfold holder at 1; simpl.
+      destruct (cs_of c i n) as [o1|] eqn:Ec.
+      + assert (Ho1 : holder c o1 = Some (i, n)) by (apply IH; auto).
+        destruct (Nat.eqb_spec o1 o); [subst; congruence|].
+        assert (o1 < List.length (c_objs c))%nat.
+        { unfold holder in Ho1. destruct (nth_error (c_objs c) o1) eqn:E; [|discriminate]. eapply nth_some_lt; eauto. }
+        split; intro Hc.
+        * inv Hc. rewrite nth_error_app1 by auto. exact Ho1.
+        * destruct (nth_error (c_objs c ++ _) o') eqn:E; [|discriminate].
+          apply nth_app_cases in E. destruct E as [[E _]|[E1 E2]].
+          -- assert (holder c o' = Some (i, n)) by (unfold holder; rewrite E; auto).
+             apply IH in H0. congruence.
+          -- subst. simpl in Hc. discriminate.
+      + split; [discriminate|]. intro Hc.
+        destruct (nth_error (c_objs c ++ _) o') eqn:E; [|discriminate].
+        apply nth_app_cases in E. destruct E as [[E _]|[E1 E2]].
+        * assert (holder c o' = Some (i, n)) by (unfold holder; rewrite E; auto).
+          apply IH in H. congruence.
+        * subst. simpl in Hc. discriminate.
+  Qed.
+
+  Theorem inv_lock_reach : forall c, preach c -> inv_lock c.
+  Proof. induction 1; [apply inv_lock_init|eapply inv_lock_step; eauto]. Qed.
+
+  (* mutual exclusion: two critical sections in progress on the same object are the same one *)
+  Theorem mutex_preach : forall c, preach c ->
+    forall i n i' n' o, in_cs S X c i n o -> in_cs S X c i' n' o -> i = i' /\ n = n'.
+  Proof.
+    intros c Hr i n i' n' o (J & s & ph & Ei & Eg & Ec & Eo) (J' & s' & ph' & Ei' & Eg' & Ec' & Eo').
+    assert (H1 : cs_of c i n = Some o) by (unfold cs_of; rewrite Ei, Eg, Ec; auto).
+    assert (H2 : cs_of c i' n' = Some o) by (unfold cs_of; rewrite Ei', Eg', Ec'; auto).
+    apply (inv_lock_reach c Hr) in H1. apply (inv_lock_reach c Hr) in H2.
+    rewrite H1 in H2. inv H2. auto.
+  Qed.
 End Inv.
